@@ -195,6 +195,12 @@ def _exc(ex):
     return type(ex).__name__
 
 
+def _limited(fn, limit):
+    """a generous limit and one longer retry: on a busy machine a spurious time-out inside the parsers could be
+    mistaken for a parse error (the alarm is a BaseException raised at an arbitrary point of third-party code)"""
+    return call_limited(fn, limit, 5)
+
+
 def _where(ex):
     """innermost frames of the traceback (walked by hand: the third-party parser leaves sys.tracebacklimit at 0,
     which empties traceback.extract_tb)"""
@@ -257,21 +263,21 @@ def _read(kw, dom, prob):
     return PDDLReader(**kw).parse_problem_string(dom, prob)
 
 
-def round_trip(P, plans, temporal, limit=30):
+def round_trip(P, plans, temporal, limit=120, ai_on_temporal=True):
     """write P, read it back with both readers; returns (write record, [read records])
     plans: list of (kind, steps) over P's identifiers."""
     from unified_planning.io import PDDLWriter, PDDLReader
 
     W = {"wexc": "none", "wmsg": "", "dom": "", "prob": ""}
     try:
-        problem = call_limited(lambda: upj.build(P), limit)
+        problem = _limited(lambda: upj.build(P), limit)
     except ImplTimeout:
         return {"skip": "build-timeout"}, []
     except Exception as ex:
         return {"skip": "build:" + _exc(ex), "detail": _msg(ex)}, []
     try:
         w = PDDLWriter(problem)
-        W["dom"], W["prob"] = call_limited(lambda: (w.get_domain(), w.get_problem()), limit)
+        W["dom"], W["prob"] = _limited(lambda: (w.get_domain(), w.get_problem()), limit)
     except ImplTimeout:
         W["wexc"] = "TIMEOUT"
         return W, []
@@ -281,13 +287,16 @@ def round_trip(P, plans, temporal, limit=30):
     dom, prob = W["dom"], W["prob"]
     reads = []
     for rname, kw in READERS:
+        if rname == "ai" and temporal and not ai_on_temporal:
+            # the third-party grammar has no durative actions: it is offered only a sample of the temporal slice
+            continue
         if True:
             variant = "default"
             R = {"reader": rname, "variant": variant, "rexc": "none", "rmsg": "", "B": None, "miss": [], "plans": []}
             try:
                 with warnings.catch_warnings():
                     warnings.simplefilter("ignore")
-                    q = call_limited(lambda: _read(kw, dom, prob), limit)
+                    q = _limited(lambda: _read(kw, dom, prob), limit)
             except ImplTimeout:
                 R["rexc"] = "TIMEOUT"
                 q = None
@@ -313,7 +322,7 @@ def round_trip(P, plans, temporal, limit=30):
                       "via": [], "vkind": "", "vexc": "none"}
                 try:
                     pl = timeobs.build_seq_plan(problem, steps) if kind == "seq" else timeobs.build_tt_plan(problem, steps)
-                    pr["text"] = call_limited(lambda: w.get_plan(pl), limit)
+                    pr["text"] = _limited(lambda: w.get_plan(pl), limit)
                 except ImplTimeout:
                     pr["wexc"] = "TIMEOUT"
                 except Exception as ex:
@@ -321,7 +330,7 @@ def round_trip(P, plans, temporal, limit=30):
                 if pr["wexc"] == "none":
                     # (a) against the re-read problem, by PDDL names
                     try:
-                        bp = call_limited(lambda: rd.parse_plan_string(q, pr["text"]), limit)
+                        bp = _limited(lambda: rd.parse_plan_string(q, pr["text"]), limit)
                         pr["bkind"], bsteps = _steps_of_plan(bp)
                         pr["back"] = rename_steps(bsteps, BackRenamer(w))
                     except ImplTimeout:
@@ -330,7 +339,7 @@ def round_trip(P, plans, temporal, limit=30):
                         pr["bexc"] = _exc(ex)
                     # (b) against the original problem, through the writer's look-up
                     try:
-                        vp = call_limited(lambda: rd.parse_plan_string(problem, pr["text"], w.get_item_named), limit)
+                        vp = _limited(lambda: rd.parse_plan_string(problem, pr["text"], w.get_item_named), limit)
                         pr["vkind"], pr["via"] = _steps_of_plan(vp)
                     except ImplTimeout:
                         pr["vexc"] = "TIMEOUT"
@@ -365,6 +374,17 @@ class GenAI(Gen):
             out["args"] = [self._positive(a) for a in e["args"]]
             return out
         return e
+
+    def atom(self, params, vs):
+        # more fluent-vs-constant comparisons around the initial values, so that the boundary case of <= / < is
+        # reached within the depth bound (generator bias only)
+        nfl = [f for f in self.P["fluents"] if f["type"]["k"] in ("int", "real")]
+        if nfl and self.o["numeric"] and self.r.random() < 0.3:
+            app = self.fluent_app(self.r.choice(nfl), params, vs)
+            if app is not None:
+                c = upj.E("const", v=upj.NV(self.r.choice([0, 1, 1, 2, 2, 3])))
+                return upj.E(self.r.choice(["le", "le", "lt"]), self.r.choice([[app, c], [c, app]]))
+        return Gen.atom(self, params, vs)
 
     def const_of_type(self, t, wide=False):
         v = Gen.const_of_type(self, t, wide)
@@ -443,7 +463,7 @@ def make_corpus(rng, counts):
         P = _writable_metric(g_num, _gen(g_num, i))
         out.append(("num", adversarial_names(P, rng) if i % 4 else P))
     for i in range(counts["ai"]):
-        g = g_cls if i % 2 else g_ai
+        g = g_cls if i % 3 == 0 else g_ai
         P = _writable_metric(g, _gen(g, i))
         # (the third-party parser rejects every identifier that is a keyword of its grammar: none here)
         out.append(("ai", adversarial_names(P, rng, 0.5, keywords=False) if i % 3 == 0 else P))
@@ -701,7 +721,7 @@ def worker(job):
             return [("seq", _steps(pl)) for pl in pls], safe
 
         try:
-            plans, rec["safe"] = call_limited(mk_plans, 120, 10)
+            plans, rec["safe"] = call_limited(mk_plans, 240, 5)
         except ImplTimeout:
             rec["skip"] = "plans-timeout"
             return rec
@@ -709,7 +729,7 @@ def worker(job):
             rec["skip"] = "build:" + _exc(ex)
             rec["detail"] = _msg(ex)
             return rec
-        W, reads = round_trip(P, plans, temporal)
+        W, reads = round_trip(P, plans, temporal, ai_on_temporal=(cid % 5 == 0))
         if "skip" in W:
             rec["skip"] = W["skip"]
             return rec
@@ -897,7 +917,7 @@ def _preimport():
 def run(ctx):
     q = ctx.quick
     _preimport()
-    counts = dict(num=20, ai=22, bnd=8, tmp=18) if q else dict(num=240, ai=240, bnd=60, tmp=180)
+    counts = dict(num=18, ai=20, bnd=8, tmp=16) if q else dict(num=240, ai=240, bnd=60, tmp=180)
     D = 3 if q else 4
     L = 3 if q else 5
     k = 4 if q else 6
